@@ -142,6 +142,7 @@ def step (mc : Bool) (st : Option Ledger) (line : String) : Option Ledger × Str
     | .ok L => (some L, showResult r withDump)
     | .error _ => (st, showResult r withDump)
   match ws, st with
+  | "oracle-only" :: _, _ => (st, "unsupported")   -- run on the real code under the oracles only (DEX batches: C20)
   | "genesis" :: rest, _ =>
     match parseGenesis rest with
     | some r => (match r with | .ok L => (some L, showResult r true) | .error _ => (none, showResult r true))
